@@ -52,9 +52,22 @@ pub fn run(case: &str) -> String {
                 if mt.params.is_empty() { outs.push("F".to_string()) } else { outs.push(format!("F+{}", mt.params.len())) }
             } else {
                 let mut s = mt.route.to_string();
-                for (k, v) in mt.params.iter() {
+                let all: Vec<(&str, &str)> = mt.params.iter().collect();
+                for (k, v) in &all {
                     s.push_str(&format!(",{}={}", hex(k.as_bytes()), hex(v.as_bytes())));
                 }
+                // the by-name accessor agrees with the list: the first entry of exactly that name, nothing for a name that is
+                // not bound (case variants of a bound name included), and len() is the length of the list
+                let mut bad = mt.params.len() != all.len();
+                for (k, _) in &all {
+                    let want = all.iter().find(|(k2, _)| k2 == k).map(|(_, v)| *v);
+                    if mt.params.get(k) != want { bad = true; }
+                    for alt in [k.to_ascii_uppercase(), k.to_ascii_lowercase(), format!("{k}x")] {
+                        let want = all.iter().find(|(k2, _)| *k2 == alt.as_str()).map(|(_, v)| *v);
+                        if mt.params.get(&alt) != want { bad = true; }
+                    }
+                }
+                if bad { s.push_str(",GET-DISAGREES-WITH-LIST"); }
                 outs.push(s);
             }
         }
@@ -142,7 +155,7 @@ pub fn gen(ctx: &Ctx) {
     // custom methods also in lower / mixed case: `PURGE`, `Purge` and `purge` are three different methods (seed C11-j keyed the
     // bucket by the upper-cased token at registration only)
     let methods = ["0", "1", "2", "3", "4", "5", "6", "7", "c50555247", "c474554", "c4c494e4b", "c5075726765", "c7075726765", "c6d2d736561726368", "c676574"];
-    let words = ["a", "b", "c", "users", "api", "v1", "x", "", "é", ":id", ":name", ":p", "*", "**", "a b", ":", "***", "*a", "c#", "a?b"];
+    let words = ["a", "b", "c", "users", "api", "v1", "x", "", "é", ":id", ":name", ":p", "*", "**", "a b", ":", "***", "*a", "c#", "a?b", ":ID", ":Name"];
     let n = if ctx.thorough { 20000 } else { 2500 };
     for _ in 0..n {
         let nr = rng.range(1, 40) as usize;
